@@ -896,10 +896,12 @@ def run(ctx):
     ctx.note("T3 regenerate: %s; %s" % ("ok" if ok_gen else "FAILED", gen_msg.replace("\n", " | ")[:300]))
     consts = read_consts()
     coq_ok = ctx.coq_stage()
-    fresh = all(vcheck.coq_vo_ok(x) for x in ("Gen/Consts.v", "Model/Client.v", "Proofs/ClientP.v", "Properties/C19.v"))
+    deps = ["Gen/Consts.v", "Model/Client.v", "Proofs/ClientSrv.v", "Proofs/ClientP.v", "Proofs/ClientBasic.v", "Proofs/ClientStop.v",
+            "Proofs/ClientAlive.v", "Proofs/ClientMulti.v", "Properties/C19.v"]
+    fresh = all(vcheck.coq_vo_ok(x) for x in deps)
     if fresh:
         mt = lambda x: (vcheck.COQ / x).with_suffix(".vo").stat().st_mtime  # noqa
-        fresh = mt("Model/Client.v") >= mt("Gen/Consts.v") and mt("Proofs/ClientP.v") >= mt("Model/Client.v") and mt("Properties/C19.v") >= mt("Proofs/ClientP.v")
+        fresh = all(mt(x) >= mt("Gen/Consts.v") for x in deps[1:])
     if coq_ok and (not fresh or not ok_gen):
         coq_ok = False
         ctx.note("coq: Properties/C19.vo is not a re-check against the regenerated constants of this tree")
